@@ -7,6 +7,8 @@ res = {}
 only = sys.argv[1:]
 for d in sorted(glob.glob(V + "/seeded/*/")):
     sid = os.path.basename(d.rstrip("/"))
+    if not sid.startswith("seed-"):
+        continue
     if only and sid not in only:
         continue
     meta = json.load(open(d + "meta.json"))
